@@ -90,11 +90,11 @@ def rvq_cases(ctx, rng, scale, cases, meta, failures, dist):
             for p_ in params:
                 p_.grad = None
             dist['hist_opt_step'] += 1
-        if ci % 4 == 1:
+        if ci % 4 == 1 or ci % 6 == 2:
             other = ResidualVQ(**kw)
             other.train()
             other(torch.randn(2, 4, kw['dim']))
-            rvq.load_state_dict(copy.deepcopy(other.state_dict()))
+            rvq.load_state_dict(copy.deepcopy(other.state_dict()), **({'assign': True} if ci % 8 == 5 else {}))     # assign=True replaces the tensor objects
             dist['hist_reload'] += 1
         exact = (not proj) and (not cosine) and (not implicit) and rng.random() < 0.5
         if exact:
